@@ -250,8 +250,119 @@ def seq_op(obj, hd, f):
     return 'BADOP'
 
 
+def pub_fields(k):
+    """every public export of a key object, each read defensively"""
+    def g(f):
+        try:
+            v = f()
+            return hx(v) if isinstance(v, bytes) else str(v)
+        except Exception as e:
+            return err_tok(e).replace(' ', '_')
+    return 'ph=%s pch=%s puh=%s pb=%s pcb=%s pub=%s x=%s y=%s comp=%s priv=%s' % (
+        g(lambda: k.public_hex), g(lambda: k.public_compressed_hex), g(lambda: k.public_uncompressed_hex),
+        g(lambda: k.public_byte), g(lambda: k.public_compressed_byte), g(lambda: k.public_uncompressed_byte),
+        g(lambda: '%x' % k.x), g(lambda: '%x' % k.y), b01(k.compressed), b01(k.is_private))
+
+
+def pubrt(t):
+    """pubrt <form> <pubc hex> <pubu hex> <order>: import a PUBLIC key in one form, read every public export (in the given
+    order: c = compressed first, u = uncompressed first), import every exported text / bytes again"""
+    form, pubc, pubu, order = t[1:5]
+    pubc, pubu = unhx(pubc), unhx(pubu)
+    try:
+        if form == 'ch':
+            k = Key(pubc.hex())
+        elif form == 'cb':
+            k = Key(pubc)
+        elif form == 'uh':
+            k = Key(pubu.hex())
+        elif form == 'ub':
+            k = Key(pubu)
+        elif form == 'hch':
+            k = HDKey(pubc.hex())
+        elif form == 'hcb':
+            k = HDKey(pubc)
+        elif form == 'hub':
+            k = HDKey(pubu, compressed=False)
+        elif form == 'pt':
+            k = Key((int.from_bytes(pubu[1:33], 'big'), int.from_bytes(pubu[33:], 'big')))
+        elif form in ('xpub', 'xpubw'):
+            h0 = HDKey(pubc, chain=b'\x21' * 32, depth=3, child_index=7, parent_fingerprint=b'\1\2\3\4', witness_type='legacy')
+            w = h0.wif_public()
+            k = HDKey(w) if form == 'xpub' else HDKey.from_wif(w)
+        else:
+            return 'BADREQ'
+    except Exception as e:
+        return 'IMPORT ' + err_tok(e)
+    if order == 'u':
+        try:
+            k.public_uncompressed_hex
+        except Exception:
+            pass
+    first = pub_fields(k)
+    res = []
+    for name, f in (('pch', lambda: k.public_compressed_hex), ('puh', lambda: k.public_uncompressed_hex),
+                    ('pcb', lambda: k.public_compressed_byte), ('pub', lambda: k.public_uncompressed_byte),
+                    ('ph', lambda: k.public_hex), ('pb', lambda: k.public_byte)):
+        try:
+            v = f()
+            k2 = HDKey(v, compressed=len(v) in (33, 66)) if form.startswith(('h', 'x')) and name in ('pch', 'pcb') else Key(v)
+            res.append('%s:%s/%s' % (name, hx(k2.public_compressed_byte), hx(k2.public_uncompressed_byte)))
+        except Exception as e:
+            res.append('%s:%s' % (name, err_tok(e).replace(' ', '_')))
+    try:
+        au = k.address_uncompressed(encoding='base58', script_type='p2pkh')
+    except Exception as e:
+        au = err_tok(e).replace(' ', '_')
+    return 'PUB %s | %s | au=%s' % (first, ' '.join(res), au)
+
+
+def bip38rt(t):
+    """bip38rt <exporter K|H> <net> <secret hex> <compressed t|f> <password hex> <vias>: encrypt once, import the BIP38 text
+    through every entry point named in vias (k = Key, h = HDKey, f = bip38_decrypt, n = Key without network=)"""
+    from bitcoinlib.keys import bip38_decrypt
+    exporter, net, sec, comp, pw, vias = t[1:7]
+    pw = unhx(pw).decode('latin-1')
+    try:
+        if exporter == 'H':
+            src = HDKey(unhx(sec), network=net, compressed=tf(comp), witness_type='legacy')
+        else:
+            src = Key(unhx(sec), network=net, compressed=tf(comp))
+        e = src.encrypt(pw)
+    except Exception as ex:
+        return 'EXPORT ' + err_tok(ex)
+    out = ['E=%s' % e]
+    for v in vias:
+        try:
+            if v == 'k':
+                k = Key(e, password=pw, network=net)
+            elif v == 'n':
+                k = Key(e, password=pw)
+            elif v == 'h':
+                k = HDKey(e, password=pw, network=net, witness_type='legacy')
+            elif v == 'f':
+                priv, ah, c, _ = bip38_decrypt(e, pw)
+                out.append('f:sec=%s,comp=%s' % (hx(priv), b01(c)))
+                continue
+            else:
+                out.append(v + ':BADVIA')
+                continue
+            try:
+                w = k.wif_key() if v == 'h' else k.wif()
+            except Exception as ex:
+                w = err_tok(ex).replace(' ', '_')
+            out.append('%s:sec=%s,comp=%s,pub=%s,net=%s,wif=%s' % (v, hx(k.private_byte), b01(k.compressed), k.public_hex, k.network.name, w))
+        except Exception as ex:
+            out.append('%s:%s' % (v, err_tok(ex).replace(' ', '_')))
+    return ' '.join(out)
+
+
 def dispatch(t):
     k = t[0]
+    if k == 'pubrt':
+        return pubrt(t)
+    if k == 'bip38rt':
+        return bip38rt(t)
     if k == 'seq':
         return seq(t)
     if k == 'gkf':
